@@ -168,9 +168,15 @@ func r3clone(c *core.Ctx) {
 			c.SoftUndecided("%s: neither %s nor %s contains the expected %s (clone not recognised)", key, encName, decName, what)
 			return
 		}
+		if len(e) < minN || len(d) < minN {
+			// one side was restructured (helper, closed form): the two can no longer be compared as clones
+			c.SoftUndecided("%s: only one of %s (%v) and %s (%v) still contains the expected %s — the other computes it in a form the rule cannot compare", key, encName, e, decName, d, what)
+			return
+		}
 		c.Check(strings.Join(e, " ") == strings.Join(d, " "), R, key, enc.Pos(), strings.Join(e, " "), "%s: the encoder (%s) uses %v but the decoder (%s) uses %v — a value encoded on one side is decoded differently on the other", what, encName, e, decName, d)
 	}
-	pair("aper:constraint-value-guards", "perRawBitData.appendConstraintValue", "perBitData.parseConstraintValue", regexp.MustCompile(`^(.*(?:p1|\(iv<=8\)).*)$`), "constrained whole number range guards", 4)
+	pair("aper:constraint-value-guards", "perRawBitData.appendConstraintValue", "perBitData.parseConstraintValue", regexp.MustCompile(`^(\(p1[<>=!]+-?\d+\))$`), "constrained whole number range guards", 3)
+	pair("aper:constraint-value-bit-width", "perRawBitData.appendConstraintValue", "perBitData.parseConstraintValue", regexp.MustCompile(`^(\(iv<=8\)|\(\(1<<iv\)>=p1\))$`), "bit-field width loop (1..8 bits, 2^i >= range)", 2)
 	pair("aper:integer-octets-of-range", "perRawBitData.appendInteger", "perBitData.parseInteger", regexp.MustCompile(`^(\(\(iv>>8\).*)$`), "octets-of-range loop exit test", 1)
 	pair("aper:integer-length-bits", "perRawBitData.appendInteger", "perBitData.parseInteger", regexp.MustCompile(`^(\(\(1<<iv\)>=iv\))$`), "bit width of the length field", 1)
 	pair("aper:integer-range-classes", "perRawBitData.appendInteger", "perBitData.parseInteger", regexp.MustCompile(`^\(phi\(.*\)(<=65536|<=0|<0|==1)\)$`), "value-range classes (1, <=0, <0, <=65536)", 2)
